@@ -192,6 +192,8 @@ pub struct Stats {
     /// Operations at whose start or end the process had threads the simulator does not own (the
     /// tree under test started them): such a run is not a function of the decisions alone.
     pub ops_with_outside_threads: u64,
+    /// Threads created by the program under simulation and adopted by the scheduler.
+    pub threads_adopted: u64,
 }
 
 impl Stats {
@@ -239,6 +241,7 @@ impl Stats {
         self.atomic_yields += o.atomic_yields;
         self.preempt_atomic += o.preempt_atomic;
         self.ops_with_outside_threads += o.ops_with_outside_threads;
+        self.threads_adopted += o.threads_adopted;
     }
 }
 
@@ -272,6 +275,8 @@ pub enum YieldKind {
     Sleep,
     /// `thread::yield_now` (a spin loop being polite): somebody else runs if anybody can.
     SpinYield,
+    /// An adopted thread's start routine has returned: the token goes to somebody else for good.
+    Exit,
     /// An atomic operation of the instrumented library is about to happen (`bbguard::tsan`):
     /// where lock-free code communicates. Treated like a job boundary, and the preferred place
     /// for descheduling a thread.
@@ -421,6 +426,11 @@ struct Worker {
     futex_timeout: bool,
     /// Descheduled at a rarely executed site until this step of the current operation (0 = not).
     suspend_until: u64,
+    /// Not a worker of the pool but a thread that the program under simulation created itself
+    /// (`std::thread`), adopted by the scheduler (`adopt_thread`): it runs only with the token.
+    foreign: bool,
+    /// Set when an adopted thread's start routine has returned (what a join waits for).
+    exit_flag: Arc<AtomicU8>,
 }
 
 struct Pool {
@@ -559,7 +569,7 @@ fn current() -> Option<(Arc<Sim>, usize)> {
 }
 
 fn current_pool() -> usize {
-    CURRENT.with(|c| c.borrow().as_ref().map(|(_, p, _)| *p).unwrap_or(0))
+    CURRENT.try_with(|c| c.try_borrow().ok().and_then(|b| b.as_ref().map(|(_, p, _)| *p))).ok().flatten().unwrap_or(0)
 }
 
 /// Exit code used when the watchdog declares a simulation blocked.
@@ -639,6 +649,9 @@ impl Inner {
             };
         }
         let w = &self.pools[self.active].workers[t];
+        if w.foreign && w.exit_flag.load(Ordering::SeqCst) != FUTEX_WAITING {
+            return false;
+        }
         if w.suspend_until > self.policy.step {
             return false;
         }
@@ -862,9 +875,10 @@ impl Sim {
         let mut g = self.lock();
         let a = g.active;
         let want = g.cfg.pool_sizes[a].max(1);
-        if g.pools[a].workers.len() == want {
+        if g.pools[a].workers.iter().filter(|w| !w.foreign).count() == want {
             return;
         }
+        // (adopted threads are only ever appended after the workers of their pool exist)
         assert!(g.pools[a].workers.is_empty());
         let mut prios: Vec<i64> = (1..=want as i64).collect();
         // Priorities are re-drawn per op in PCT mode; start with identity.
@@ -891,6 +905,8 @@ impl Sim {
                 futex: None,
                 futex_timeout: false,
                 suspend_until: 0,
+                foreign: false,
+                exit_flag: Arc::new(AtomicU8::new(FUTEX_WAITING)),
             });
         }
         // wait until every new worker has told its thread id (it does so first thing): from here on
@@ -901,7 +917,7 @@ impl Sim {
         loop {
             let g = self.lock();
             let have = g.workers_registered;
-            let need: usize = g.pools.iter().map(|p| p.workers.len()).sum();
+            let need: usize = g.pools.iter().map(|p| p.workers.iter().filter(|w| !w.foreign).count()).sum();
             drop(g);
             if have >= need {
                 break;
@@ -938,6 +954,10 @@ impl Sim {
         let mp = self.parker_of(&g, me);
         drop(g);
         np.release();
+        if kind == YieldKind::Exit {
+            // this thread leaves the simulation; it never asks for the token again
+            return;
+        }
         self.park(me, &mp);
     }
 
@@ -982,7 +1002,7 @@ impl Sim {
         let _i = InternalSection::new();
         self.progress.fetch_add(1, Ordering::Relaxed);
         let mut g = self.lock();
-        if g.shutdown || (me != DRIVER && current_pool() != g.active) {
+        if g.shutdown || (me != DRIVER && kind != YieldKind::Exit && current_pool() != g.active) {
             // the simulation is being torn down (all threads were released at once), or this is a
             // left-over of an earlier operation on another pool: nothing to schedule
             return;
@@ -998,7 +1018,10 @@ impl Sim {
             YieldKind::Atomic => g.stats.atomic_yields += 1,
             _ => {}
         }
-        let forced = matches!(kind, YieldKind::Wait | YieldKind::Idle | YieldKind::Blocked);
+        if std::env::var("SIM_DEBUG").map_or(false, |v| v == "2") {
+            eprintln!("yield {} {:?} step {} dec {} runnable {:?}", me as isize, kind, g.policy.step, g.log.len(), g.runnable_set().iter().map(|t| *t as isize).collect::<Vec<_>>());
+        }
+        let forced = matches!(kind, YieldKind::Wait | YieldKind::Idle | YieldKind::Blocked | YieldKind::Exit);
         let boundary = matches!(
             kind,
             YieldKind::JobStart
@@ -1678,6 +1701,16 @@ impl Sim {
     /// Stop all workers (driver only). The simulation cannot be used afterwards.
     pub fn shutdown(self: &Arc<Sim>) {
         bbguard::set_mode(bbguard::MODE_OFF);
+        {
+            // adopted threads that are still around run free from here on
+            let g = self.lock();
+            let ps: Vec<Arc<Parker>> = g.pools.iter().flat_map(|p| p.workers.iter().filter(|w| w.foreign).map(|w| w.parker.clone())).collect();
+            drop(g);
+            self.lock().shutdown = true;
+            for p in ps {
+                p.release();
+            }
+        }
         let handles: Vec<(Arc<Parker>, JoinHandle<()>)> = {
             let mut g = self.lock();
             g.shutdown = true;
@@ -1786,6 +1819,9 @@ fn bb_callback(kind: u32) {
         }
     };
     flush_hooks_passed(&sim);
+    if std::env::var("SIM_DEBUG").map_or(false, |v| v == "2") {
+        eprintln!("  cb {} kind {} last {:?}", me, kind, bbguard::debug_last());
+    }
     if kind == bbguard::KIND_ATOMIC {
         sim.yield_point(me, YieldKind::Atomic);
     } else if kind == bbguard::KIND_RARE_SITE {
@@ -1958,6 +1994,198 @@ pub(crate) fn futex_wake_emulated(addr: usize, n: usize) -> usize {
     });
     FUTEX_WAKES.fetch_add(k as u64, Ordering::Relaxed);
     k
+}
+
+// ---------------------------------------------------------------------------
+// Threads the program under simulation creates itself (called from the interposed
+// `pthread_create` / `pthread_join` in `sys`)
+// ---------------------------------------------------------------------------
+
+/// What the trampoline of an adopted thread needs.
+#[derive(Clone)]
+pub(crate) struct Adopted {
+    sim: Arc<Sim>,
+    pool: usize,
+    idx: usize,
+    pub(crate) exit_flag: Arc<AtomicU8>,
+}
+
+/// Called by a simulated thread (worker, adopted thread or driver) that holds the token and is
+/// about to create a thread: reserves a slot for it in the scheduler. None: not a simulated
+/// caller, create the thread normally.
+pub(crate) fn adopt_thread() -> Option<Adopted> {
+    let _i = InternalSection::new();
+    let cur = CURRENT.try_with(|c| c.try_borrow().ok().and_then(|b| b.as_ref().map(|(s, p, i)| (s.clone(), *p, *i)))).ok().flatten();
+    let (sim, pool, me) = cur?;
+    {
+        let g = sim.lock();
+        if g.shutdown || g.current != me {
+            return None;
+        }
+    }
+    // the workers of the pool come first (worker indices are positions)
+    sim.ensure_workers();
+    let mut g = sim.lock();
+    let a = if me == DRIVER { g.active } else { pool };
+    if a != g.active {
+        return None;
+    }
+    let idx = g.pools[a].workers.len();
+    let exit_flag = Arc::new(AtomicU8::new(FUTEX_WAITING));
+    let prio = g.policy.pct_low - 1 - g.choose(4) as i64;
+    g.pools[a].workers.push(Worker {
+        parker: Arc::new(Parker::new()),
+        deque: VecDeque::new(),
+        status: Status::Running,
+        // parked at a voluntary point: runnable as soon as it exists
+        parked_at: Some(YieldKind::JobStart),
+        depth: 0,
+        priority: prio,
+        handle: None,
+        ran_anything: true,
+        futex: None,
+        futex_timeout: false,
+        suspend_until: 0,
+        foreign: true,
+        exit_flag: exit_flag.clone(),
+    });
+    g.stats.threads_adopted += 1;
+    drop(g);
+    Some(Adopted { sim, pool: a, idx, exit_flag })
+}
+
+impl Adopted {
+    /// The thread could not be created after all.
+    pub(crate) fn cancel(&self) {
+        self.exit_flag.store(FUTEX_WOKEN, Ordering::SeqCst);
+    }
+
+    /// First thing on the new thread: join the simulation and wait for the token.
+    pub(crate) fn enter(&self) {
+        let _i = InternalSection::new();
+        // The thread leaves the simulation at its very end, not when its start routine returns:
+        // thread-local destructors are program code too (an `Arc` shared with other threads dropped
+        // from a thread-local), and after them std drops the thread's own handle - another shared
+        // reference count. glibc runs the destructors of pthread keys after all of that
+        // (`__call_tls_dtors`, then `__nptl_deallocate_tsd`), so that is where the token is given away.
+        unsafe {
+            let key = exit_key();
+            let b = Box::into_raw(Box::new(self.clone()));
+            if libc::pthread_setspecific(key, b as *const libc::c_void) != 0 {
+                drop(Box::from_raw(b));
+            }
+        }
+        CURRENT.with(|c| *c.borrow_mut() = Some((self.sim.clone(), self.pool, self.idx)));
+        crate::clock::set_thread_sim_time(true);
+        bbguard::set_thread_worker(true);
+        let tid = unsafe { crate::sys::raw6(libc::SYS_gettid, 0, 0, 0, 0, 0, 0) } as u64;
+        let parker = {
+            let mut g = self.sim.lock();
+            g.known_tids.insert(tid);
+            g.pools[self.pool].workers[self.idx].parker.clone()
+        };
+        let sim_time = crate::clock::set_thread_sim_time(false);
+        loop {
+            if parker.try_take() {
+                break;
+            }
+            parker.wait_ms(200);
+        }
+        crate::clock::set_thread_sim_time(sim_time);
+        let mut g = self.sim.lock();
+        if !g.shutdown {
+            g.pools[self.pool].workers[self.idx].parked_at = None;
+        }
+    }
+
+    /// Last thing on the thread (from the destructor of `exit_key`): the token goes to somebody else for good.
+    pub(crate) fn leave(&self) {
+        let _i = InternalSection::new();
+        self.exit_flag.store(FUTEX_WOKEN, Ordering::SeqCst);
+        bbguard::set_thread_worker(false);
+        crate::clock::set_thread_sim_time(false);
+        let holds = {
+            let g = self.sim.lock();
+            !g.shutdown && g.current == self.idx && g.active == self.pool
+        };
+        if holds {
+            flush_hooks_passed(&self.sim);
+            self.sim.yield_point(self.idx, YieldKind::Exit);
+        }
+        let _ = CURRENT.try_with(|c| *c.borrow_mut() = None);
+    }
+}
+
+static EXIT_KEY: std::sync::atomic::AtomicUsize = std::sync::atomic::AtomicUsize::new(usize::MAX);
+
+extern "C" fn exit_key_dtor(p: *mut libc::c_void) {
+    if !p.is_null() {
+        let a = unsafe { Box::from_raw(p as *mut Adopted) };
+        a.leave();
+    }
+}
+
+/// The pthread key whose destructor ends an adopted thread's membership (created once).
+fn exit_key() -> libc::pthread_key_t {
+    let k = EXIT_KEY.load(Ordering::SeqCst);
+    if k != usize::MAX {
+        return k as libc::pthread_key_t;
+    }
+    let mut key: libc::pthread_key_t = 0;
+    let rc = unsafe { libc::pthread_key_create(&mut key, Some(exit_key_dtor_raw)) };
+    if rc != 0 {
+        sim_fatal("pthread_key_create failed");
+    }
+    match EXIT_KEY.compare_exchange(usize::MAX, key as usize, Ordering::SeqCst, Ordering::SeqCst) {
+        Ok(_) => key,
+        Err(other) => {
+            unsafe {
+                libc::pthread_key_delete(key);
+            }
+            other as libc::pthread_key_t
+        }
+    }
+}
+
+unsafe extern "C" fn exit_key_dtor_raw(p: *mut libc::c_void) {
+    exit_key_dtor(p)
+}
+
+/// A simulated thread joins a thread: if that one was adopted and still runs, the caller waits in
+/// the simulator until its start routine has returned.
+pub(crate) fn wait_for_exit(flag: &Arc<AtomicU8>) {
+    let _i = InternalSection::new();
+    if flag.load(Ordering::SeqCst) != FUTEX_WAITING {
+        return;
+    }
+    let cur = CURRENT.try_with(|c| c.try_borrow().ok().and_then(|b| b.as_ref().map(|(s, _, i)| (s.clone(), *i)))).ok().flatten();
+    let (sim, me) = match cur {
+        Some(x) => x,
+        None => return,
+    };
+    {
+        let mut g = sim.lock();
+        if g.shutdown || g.current != me {
+            return;
+        }
+        if me == DRIVER {
+            g.driver_futex = Some(flag.clone());
+            g.driver_futex_timeout = false;
+        } else {
+            let a = current_pool();
+            g.pools[a].workers[me].futex = Some(flag.clone());
+            g.pools[a].workers[me].futex_timeout = false;
+        }
+    }
+    flush_hooks_passed(&sim);
+    sim.yield_point(me, YieldKind::Blocked);
+    let mut g = sim.lock();
+    if me == DRIVER {
+        g.driver_futex = None;
+    } else {
+        let a = current_pool();
+        g.pools[a].workers[me].futex = None;
+    }
 }
 
 /// Is the calling thread the driver (the simulated program's main thread) of an installed simulation?
@@ -2315,7 +2543,15 @@ impl FnContext {
 
 pub fn current_thread_index() -> Option<usize> {
     match current() {
-        Some((_, me)) if me != DRIVER => Some(me),
+        // (an adopted thread is not a worker of the pool)
+        Some((sim, me)) if me != DRIVER => {
+            let g = sim.lock();
+            if me < g.cfg.pool_sizes[current_pool().min(g.cfg.pool_sizes.len() - 1)].max(1) {
+                Some(me)
+            } else {
+                None
+            }
+        }
         _ => None,
     }
 }
